@@ -26,6 +26,10 @@ def pyRemainder (x y : Rat) : Rat := x - y * ((x / y).floor : Rat)
 def pyAbs (x : Rat) : Rat := if x < 0 then -x else x
 def pySign (x : Rat) : Rat := if 0 < x then 1 else if x < 0 then -1 else 0
 
+/-- `d.append(x)` on a `collections.deque(maxlen = w)` held oldest first: the oldest entries fall out -/
+def dqAppend {α : Type} (w : Int) (l : List α) (x : α) : List α :=
+  (l ++ [x]).drop ((l ++ [x]).length - w.toNat)
+
 /-- a scheduled propagation event as the agent's queue holds it: an impulse (`time`) or an event with a duration
 (`isBurn`: `ScheduledFiniteManeuver` / `ScheduledFiniteBurn`, with `start_time`, `end_time`); `id` distinguishes objects -/
 structure Ev where
